@@ -95,6 +95,8 @@ type RunResult struct {
 	EngineErrors []string
 	ObsPaths     []*PathResult // completed paths with observations (for concolic cross-check)
 	GlobalStrings []string
+	CrossPaths    []*PathResult
+	crossSeen     int
 }
 
 func (P *Program) Explore(cfg RunConfig) *RunResult {
@@ -176,6 +178,15 @@ func (P *Program) Explore(cfg RunConfig) *RunResult {
 				}
 				if len(res.Samples) < 8 && pr.Status == "ok" {
 					res.Samples = append(res.Samples, pr)
+				}
+				// reservoir of completed paths that discharged at least one assertion (for the cross-solver diff)
+				if pr.Status == "ok" && len(pr.Asserts) > 0 {
+					res.crossSeen++
+					if len(res.CrossPaths) < 24 {
+						res.CrossPaths = append(res.CrossPaths, pr)
+					} else if j := int(uint64(res.crossSeen*2654435761) % uint64(res.crossSeen)); j < 24 {
+						res.CrossPaths[j] = pr
+					}
 				}
 				if pr.Status == "ok" && !pr.TimerNondet && !pr.UFChoice && len(pr.Observations) > 0 && len(res.ObsPaths) < 4000 {
 					res.ObsPaths = append(res.ObsPaths, pr)
